@@ -66,6 +66,26 @@ def cell_key(cell):
                                    "".join("1" if x else "0" for x in cell["cd"]))
 
 
+def input_class(cell):
+    sl = cell.get("sl") or [0, 0, 0]
+    n = 0 if sl[0] == 0 else 1 if sl[1] == 0 else 2 if sl[2] == 0 else 3
+    if n == 0:
+        return "no-first-segment"
+    if cell["ch"] >= sum(sl):
+        return "curr_hf-out-of-range"
+    if cell["ci"] >= n:
+        return "curr_inf-out-of-range"
+    if sl[1] == 0 and sl[2] != 0:
+        return "zero-length-middle-segment"
+    return "pointers-in-range"
+
+
+def want_key(key):
+    """C12 owns reversal, queries, conversions and atomicity/panic-freedom of every operation;
+    the Monotone / authentication monitors of the shared recorder belong to C11."""
+    return not key.startswith(("Monotone:", "Authentic", "Tamper"))
+
+
 def report_pvs(c, pvs, where, replay):
     for pv in pvs:
         c.violation(pv["key"], pv["what"] + " [%s]" % where, replay)
@@ -85,16 +105,19 @@ def replay_cells(c, binp, cells, tag):
             res = json.loads(line)
             stats["cells"] += 1
             obs = res.get("obs") or {}
-            if obs.get("wf"):
+            # vacuity counters are taken from the GENERATED cell (specification side), never from
+            # what the code under test answered
+            if cell.get("wf"):
                 stats["wf"] += 1
-            r = (obs.get("rev") or {}).get("ok")
+            r = (cell.get("rev") or {}).get("ok")
             if r is True:
                 stats["rev_ok"] += 1
             elif r is False:
                 stats["rev_err"] += 1
-            classes[obs.get("class", "?")] = classes.get(obs.get("class", "?"), 0) + 1
+            k = input_class(cell)
+            classes[k] = classes.get(k, 0) + 1
             # non-trivial: not (a fully valid header at the start of a path)
-            if not (obs.get("wf") and cell.get("ci") == 0 and cell.get("ch") == 0):
+            if not (cell.get("wf") and cell.get("ci") == 0 and cell.get("ch") == 0):
                 stats["nontrivial"] += 1
             if not res["conf"]:
                 stats["mismatch"] += 1
@@ -126,7 +149,8 @@ def replay_one(c, binp):
         res = json.load(open(resj))
         for pv in res["pv"]:
             print("real   :", pv["key"], "-", pv["what"])
-            c.violation(pv["key"], pv["what"], rp)
+            if want_key(pv["key"]) and not pv["key"].startswith("Drift:"):
+                c.violation(pv["key"], pv["what"], rp)
         c.cov["evaluations"] = res["events"]
         c.cov["distinct_nontrivial"] = res["nontrivial_runs"]
         c.sample(rp)
@@ -151,10 +175,10 @@ def run(c):
 
     # ---- 1+2a. exhaustive run over the pointer family, cells printed by the same run ------------
     all_cells = []
-    for fam, allch, depth in (("ptr", "TRUE" if thorough else "FALSE", 2), ("exp", "FALSE", 1)):
+    for fam, allch, depth in (("ptr", "TRUE" if thorough else "FALSE", 2 if thorough else 1), ("exp", "FALSE", 1)):
         p = cfg(c, "mc_%s.cfg" % fam, MC_TMPL.format(chmod=64, fixrev="TRUE", fixhops="TRUE", maxlen=3, allch=allch,
                                                      depth=depth, gen="TRUE", family=fam))
-        r = c.tlc(SD, "MC_PathOps", cfg=p, timeout=3000)
+        r = c.tlc(SD, "MC_PathOps", cfg=p, timeout=6000)
         for inv in r.violated:
             c.violation("spec:%s" % inv, "design-level: invariant %s violated on MC_PathOps (%s family); see %s" % (inv, fam, r.out_path), {"tlc_out": r.out_path})
         if r.ok:
@@ -222,6 +246,8 @@ def run(c):
         if key.startswith("Drift:"):
             c.drift(pv["what"])
             continue
+        if not want_key(key):
+            continue
         c.violation(key, pv["what"] + " (record run %s, seed %d, x%d)" % (pv.get("run"), c.seed, pv.get("count", 1)),
                     {"kind": "record", "mode": "c12", "seed": c.seed, "runs": runs, "tier": c.tier})
     for cls in ("wf-start", "wf-anywhere", "wf-single-hop-segs", "wf-gt64-hops", "boundary", "hostile"):
@@ -229,7 +255,7 @@ def run(c):
             c.fail_tool("vacuous record: shape class %s never produced" % cls)
     for op in ("rev:ok", "rev:err"):
         if res["ops"].get(op, 0) == 0:
-            c.fail_tool("vacuous record: outcome %s never observed" % op)
+            c.drift("record: outcome %s never observed on the real code" % op)
     c.cov["evaluations"] += res["events"]
     c.cov["distinct_nontrivial"] += res["nontrivial_runs"]
     c.cov["trace_stats"] = {k: res[k] for k in ("runs", "events", "ops", "classes", "nontrivial_runs")}
